@@ -26,9 +26,9 @@ SUPPORTED = [
 ]
 UNKNOWN_REQ = ["workspace/symbol", "foo/bar", "textDocument/documentHighlight", "$/progressReport", "$/cancelRequest",
                "$/verif/other", "window/workDoneProgress/create", "Shutdown", "textDocument/Hover", "initialized", "exit",
-               "textDocument/didOpen", "shutdown2", "x"]
+               "textDocument/didOpen", "shutdown2", "x", "prüfung/größe", "текст/метод", "😀"]
 UNKNOWN_NOTE = ["$/setTrace", "foo/note", "workspace/didChangeConfiguration", "$/cancelRequest", "$/progress", "Exit",
-                "initialize", "shutdown", "textDocument/hover", "exit2"]
+                "initialize", "shutdown", "textDocument/hover", "exit2", "größe/geändert"]
 
 
 def letter_message(letter, next_id, rng):
